@@ -51,3 +51,9 @@ package opt
 //@   assumed
 //@   ensures result != nil && result == uf("clusterOpts", self)
 //@   modifies nothing
+//@ func (Cluster).FitRegion
+//@   assumed
+//@   modifies nothing
+//@ func (Cluster).IsFeatureSupported
+//@   assumed
+//@   modifies nothing
